@@ -466,6 +466,11 @@ def h_pk_teddy(prop, case, facts, length, off, w, pad, timeout=2400, mem_gb=20):
     # loops: window copy w, oracle start loop length+1 ...
     unwind = max(length + 2, len(case.pats) + 1, case.maxlen + 1, 18)
     uws = pk_unwindset(case, facts)
+    if f.get("teddy_variant"):
+        meta["call"] = ("direct call of the concrete 256-bit implementation (body of teddy Searcher::find with the trait "
+                        "object replaced by the concrete value): Kani 0.68 mis-models Arc<dyn Trait> around a 32-byte aligned payload")
+        # direct call of the concrete 256-bit implementation: no Rabin-Karp code in the harness
+        uws = {k: v for k, v in uws.items() if "RabinKarp" not in k[0]}
     # Teddy verification: one candidate bit per (window byte, non-empty bucket) at most - the pad
     # byte shares no fingerprint with a pattern (checked below) - and a bucket holds few patterns
     pad_lo, pad_hi = pad & 0xF, pad >> 4
@@ -822,24 +827,32 @@ def std_core():
 
 
 def schedule(prop, tier, seed):
-    """Returns (cases, make_harnesses(facts) -> [Harness]). In the thorough
-    tier every harness whose name/shape is not part of the quick tier's
-    validated set is marked optional (core.Harness.optional)."""
-    cases, mk = _schedule(prop, tier, seed)
+    """Returns (cases, make_harnesses(facts) -> [Harness]).
+
+    The thorough tier is the quick tier's harness set (whose budgets are validated on this image on every
+    change) plus the deeper exploration. A deep harness - one that is not part of the quick set - is marked
+    optional (core.Harness.optional): if it runs out of time or memory it is reported as "not decided"
+    (stdout + evidence) and contributes nothing to the claim instead of turning the whole check inconclusive;
+    a counterexample from it is replayed and reported like any other."""
+    qcases, qmk = _schedule(prop, "quick", seed)
     if tier == "quick":
-        return cases, mk
+        return qcases, qmk
+    tcases, tmk = _schedule(prop, "thorough", seed)
+    names = set(c.name for c in qcases)
+    qline = {c.name: c.line() for c in qcases}
+    for c in tcases:
+        assert c.name not in qline or qline[c.name] == c.line(), "case %s differs between the tiers" % c.name
+    cases = list(qcases) + [c for c in tcases if c.name not in names]
 
     def mk2(facts):
-        hs = mk(facts)
-        for h in hs:
-            t = h.meta.get("template", "")
-            heavy = (h.mem_gb >= 24 or h.timeout >= 2400 or t in ("stream_run", "ac_iter", "pk_teddy")
-                     or (t == "ov_drain" and h.meta.get("N", 0) >= 3) or (t.startswith("sim_n") and h.unwindset)
-                     or (t in ("replace_bytes", "replace_str") and h.meta.get("N", 0) >= 3)
-                     or (t == "stream_replace" and h.meta.get("T", 0) >= 2)
-                     or (t == "work" and h.meta.get("kind") != "dfa") or (t == "pk_find" and "many" in h.name)
-                     or (t in ("find", "iter2") and h.meta.get("kind") != "dfa"))
-            h.optional = bool(heavy)
+        hs = list(qmk(facts))
+        have = set(h.name for h in hs)
+        for h in tmk(facts):
+            if h.name in have:
+                continue
+            have.add(h.name)
+            h.optional = True
+            hs.append(h)
         return hs
     return cases, mk2
 
@@ -1023,7 +1036,9 @@ def _schedule(prop, tier, seed):
         base = ["abc", "bc", "c", "ab"]
         for dd in ((0,) if quick else (0, 1, 16)):
             cases.append(Case("%sstd_dd%d" % (prop.lower(), dd), base, mk="std", dd=dd))
-        cases.append(Case(prop.lower() + "std_nobc", ["ab", "b"] if quick else base, mk="std", bc=False))
+        cases.append(Case(prop.lower() + "std_nobc", ["ab", "b"], mk="std", bc=False))
+        if not quick:
+            cases.append(Case(prop.lower() + "std_nobc4", base, mk="std", bc=False))
         # 256 byte classes and every state sparse: the padding slots of the contiguous NFA's sparse encoding
         # (2 and 3 transitions: not a multiple of the chunk size) meet byte 0xFF (seeded change C16b)
         cases.append(Case(prop.lower() + "std_nobc_dd0", ["ab", "ac", "b", "cab", "cb", "cc"], mk="std", bc=False, dd=0))
@@ -1255,16 +1270,16 @@ def _schedule(prop, tier, seed):
         if not quick:
             tcases += [PackedCase(prop.lower() + "lf_t3", ["abc", "bcd"], mk="lf", force="teddy128"),
                        PackedCase(prop.lower() + "lf_t1c", ["a", "q", "A"], mk="lf", force="teddy128"),
-                       ]
-            if __import__("os").environ.get("VERIF_AVX2_PROBE"):
-                # NOT part of any registered command (see DESIGN 3 C06): fat Teddy and the 256-bit slim Teddy
-                # rebuilt from the natively dumped AVX2 searchers. All AVX2 intrinsics but vpshufb run under
-                # Kani (probed), the rebuild hooks and table dumps exist, but the first harnesses ended with
-                # "pointer to unallocated memory" inside Teddy::verify_bucket - a reconstruction problem that
-                # was not resolved in the time available.
-                tcases += [PackedCase(prop.lower() + "lf_fat1", [b"\xe9", "bc"], mk="lf", force="fat"),
-                           PackedCase(prop.lower() + "lf_fat2", ["ab", "bcd"], mk="lf", force="fat"),
-                           PackedCase(prop.lower() + "lf_s256", ["a", "bc"], mk="lf", force="teddy256")]
+                       PackedCase(prop.lower() + "lf_fat2", ["ab", "bcd"], mk="lf", force="fat"),
+                       PackedCase(prop.lower() + "lf_fat4", ["abcd", "bcde"], mk="lf", force="fat"),
+                       PackedCase(prop.lower() + "ll_fat2", ["ab", "abc"], mk="ll", force="fat"),
+                       PackedCase(prop.lower() + "lf_s256_4", ["abcd", "bcde"], mk="lf", force="teddy256")]
+        # fat Teddy (16 buckets; 256-bit vectors holding two copies of a 16-byte window) and the 256-bit slim
+        # Teddy, rebuilt from the natively dumped AVX2 searchers and called on the concrete implementation
+        # (Kani mis-models Arc<dyn Trait> around a 32-byte aligned payload; DESIGN 3 C06)
+        acases = [PackedCase(prop.lower() + "lf_fat1", [b"\xe9", "bc"], mk="lf", force="fat"),
+                  PackedCase(prop.lower() + "lf_s256", ["a", "bc"], mk="lf", force="teddy256")]
+        tcases += acases
         cases += tcases
 
         def mk(facts):
@@ -1280,12 +1295,14 @@ def _schedule(prop, tier, seed):
                     if quick and c is tcases[1]:
                         # C15: the first window (loads at the very start of the exact object); C06: the final one
                         wins = [(length, 0)] if prop == "C15" else [(length + 1, length + 1 - w)]
-                    if quick and c not in tcases[:2]:
+                    if quick and c in acases:
+                        wins = [(length, 0)] if prop == "C15" else [(length + 1, length + 1 - w)]
+                    if quick and c not in tcases[:2] and c not in acases:
                         continue
                     if not quick and "t4" in c.name:
                         # two full vectors and the overlapping final window (prev0..2 carried / reset: seeded C06b)
                         wins += [(34, 30), (35, 15)]
-                    for (ln, off) in wins:
+                    for (ln, off) in dict.fromkeys(wins):
                         hs.append(h_pk_teddy(prop, c, facts, ln, off, w, 0x5a))
                     continue
                 n = 6 if quick else 8
